@@ -824,7 +824,7 @@ static struct tk_cfg cfgs[] = {
 int main(int argc, char **argv)
 {
         mc_init(argc, argv, "C19");
-        mc_set_budget(150, 3000);
+        mc_set_budget(300, 3000);
         mc_meta("level", "model_checking");
         mc_meta("technique", "explicit-state search to a fixpoint over the token protocol on the real daemon code (histories replayed on a fresh in-process daemon, canonical state hashing, invariant at every select()), plus exhaustive single-fault enumeration on one client's byte stream with a witness client");
         mc_meta("rule", "token part: a state is the canonical daemon+environment state reached by a letter history (client records in list order, token/scheduler fields, pending I/O, alarm); a transition is one client message / disconnect / stall toggle / connection / second; every transition is executed on the real daemon. fault part: one case = (connection state of the faulty client, message template, mutation, aftermath); distinct = distinct case descriptors executed");
